@@ -35,7 +35,7 @@ Proof.
 Qed.
 
 (* The order of Reset's two writers.  [cap] is the capacity of the channel over which Reset hands its batches to
-   the persisting goroutine (0 in the code).  For every order that capacity admits and every number k of writes
+   the persisting goroutine (0 in the code).  For every order that capacity lets_in and every number k of writes
    that reached the disk: the reset marker is on disk, or the database is still the pre-reset one, or the reset is
    complete; and start-up resumes the reset to height h and the database of the uninterrupted reset. *)
 Definition reset_order_statement (cap : nat) : Prop :=
